@@ -60,6 +60,9 @@ def catalogue():
         for lit, vals in ((M.lit_int("18"), [17, 18, 19, 17.5, 18.0, 18.5]),
                           (M.lit_float("2.5"), [2, 2.5, 3, 2.4999999999999996, 2.5000000000000004]),
                           (M.lit_int("3", True), [-4, -3, -2, -3.0]),
+                          (M.lit_int("9007199254740993"), [9007199254740992, 9007199254740993, 9007199254740994, 9007199254740992.0]),
+                          (M.lit_int("1234567890123456789"), [1234567890123456788, 1234567890123456789, 1234567890123456790]),
+                          (M.lit_float("0.1"), [0.1, 0.09999999999999999, 0.10000000000000002, 0]),
                           (M.lit_str("m"), ["l", "m", "n", "", "ma", "M"])):
             body = M.if_([(M.cmp_(M.ident("x"), op, lit), R(0))], R(1))
             yield _case(M.program("e", body), [{"x": v} for v in vals])
